@@ -13,16 +13,20 @@ namespace geodlat {
 inline std::vector<double> direct_lats(bool T = false) {
   std::vector<double> v = {-90, -90 + 1e-9, -60, -1 / 32.0, -1e-20, -0.0, 0.0, std::nextafter(1 / 16.0, 0.0), 1 / 16.0, 30, 45, 89.9, 90};
   // thorough: both sides of the AngRound threshold on the other hemisphere, the cbet1 < -sbet1 switch at 45, tiny_ side of the poles
-  if (T) for (double x : {-89.9, -45.0, -1 / 16.0, std::nextafter(1 / 16.0, 1.0), 60.0, 90 - 1e-13}) v.push_back(x);
+  if (T) for (double x : {-89.9, -45.0, -1 / 16.0, 1e-9, std::nextafter(1 / 16.0, 1.0), 60.0, 89.9999999, 90 - 1e-13, -75.0, -std::nextafter(1 / 16.0, 0.0), 5e-324, 15.0}) v.push_back(x);
   return v;
 }
 inline std::vector<double> direct_azis(bool T = false) {
   std::vector<double> v = {0.0, -0.0, 1e-17, 1 / 32.0, 30, 45, 90 - 1e-12, 90, 135, 180, -180, 270, 10000};
   // thorough: AngRound threshold 1/16, the other side of 90 and 180, all quadrants, a large negative multiple turn
-  if (T) for (double x : {-1 / 32.0, 1 / 16.0, 90 + 1e-12, 120.0, 180 - 1e-10, -7245.5}) v.push_back(x);
+  if (T) for (double x : {-1 / 32.0, 1 / 16.0, 60.0, 90 + 1e-12, 120.0, 180 - 1e-10, -135.0, -7245.5, -90.0, 1e-300, 179.999999999999, -45.5}) v.push_back(x);
   return v;
 }
-inline std::vector<double> direct_lons() { return {0, 179.5, -180, 540}; }
+inline std::vector<double> direct_lons(bool T = false) {
+  std::vector<double> v = {0, 179.5, -180, 540};
+  if (T) for (double x : {-0.0, 1e-13, -359.5, 89.99999999999999}) v.push_back(x);
+  return v;
+}
 struct LSpec { bool arc; double v; bool quick; };          // distances in units of the quarter meridian, arcs in degrees
 inline std::vector<LSpec> direct_lengths(bool T = false) {
   std::vector<LSpec> v = {
@@ -40,11 +44,11 @@ inline std::vector<LSpec> direct_lengths(bool T = false) {
   return v;
 }
 inline const char* direct_lat_text(bool T = false) {
-  return T ? "{-90,-90+1e-9,-60,-1/32,-1e-20,-0,+0,1/16-ulp,1/16,30,45,89.9,90} + {-89.9,-45,-1/16,1/16+ulp,60,90-1e-13} (19)"
+  return T ? "{-90,-90+1e-9,-60,-1/32,-1e-20,-0,+0,1/16-ulp,1/16,30,45,89.9,90} + {-89.9,-75,-45,-1/16,-(1/16-ulp),5e-324,1e-9,1/16+ulp,15,60,89.9999999,90-1e-13} (25)"
            : "{-90,-90+1e-9,-60,-1/32,-1e-20,-0,+0,1/16-ulp,1/16,30,45,89.9,90} (13)";
 }
 inline const char* direct_azi_text(bool T = false) {
-  return T ? "{0,-0,1e-17,1/32,30,45,90-1e-12,90,135,180,-180,270,10000} + {-1/32,1/16,90+1e-12,120,180-1e-10,-7245.5} (19)"
+  return T ? "{0,-0,1e-17,1/32,30,45,90-1e-12,90,135,180,-180,270,10000} + {-1/32,1/16,60,90+1e-12,120,180-1e-10,179.999999999999,-135,-90,-45.5,1e-300,-7245.5} (25)"
            : "{0,-0,1e-17,1/32,30,45,90-1e-12,90,135,180,-180,270,10000} (13)";
 }
 inline const char* direct_len_text(bool T) {
@@ -81,16 +85,18 @@ inline Pt astroid_point(const geodtab::Ell& E, double lat1, double x, double y) 
   return p;
 }
 
-inline std::vector<Pair> inverse_pairs(const geodtab::Ell& E, bool T) {
+// level 0 = quick, 1 = thorough (C03), 2 = thorough (C02: two more anchor meridians, 49x49 astroid grid, 32 bearings); 0 c 1 c 2
+inline std::vector<Pair> inverse_pairs(const geodtab::Ell& E, int level) {
+  const bool T = level >= 1;
   std::vector<Pair> v;
   // (a) + (e) generic grid from the anchor meridian lon1 = 0 (contains the meridional pairs lon12 in {0, 180, -180});
   //     thorough: denser alphabets and two further anchor meridians whose sums with the offsets are inexact in double
-  for (double lo1 : (T ? std::vector<double>{0, 100.1, -179.75} : std::vector<double>{0}))
+  for (double lo1 : (level >= 2 ? std::vector<double>{0, 100.1, -179.75, 359.9, -540.5} : (T ? std::vector<double>{0, 100.1, -179.75} : std::vector<double>{0})))
     for (double la1 : grid_lats(T)) for (double la2 : grid_lats(T)) for (double lo2 : grid_lons(T)) v.push_back({la1, lo1, la2, lo1 + lo2, 'g'});
   // (b) astroid grid: quick 5x5, thorough 25x25 on [-2.5,0.5]x[-1.5,1.5] (contains the 5x5 grid), strip around x = -1
   const double eps = std::ldexp(1.0, -52), tol1 = 200 * eps, xthresh = 1000 * std::sqrt(eps);
   std::vector<double> xs, ys;
-  int n = T ? 25 : 5;
+  int n = level >= 2 ? 49 : (T ? 25 : 5);
   for (int i = 0; i < n; ++i) { xs.push_back(-2.5 + 3.0 * i / (n - 1)); ys.push_back(-1.5 + 3.0 * i / (n - 1)); }
   std::vector<double> bases = {-0.5, -30.0, -60.0, -89.0};
   if (T) for (double x : {-1e-9, -1 / 32.0, -10.0, -45.0, -75.0, -89.99}) bases.push_back(x);
@@ -108,11 +114,11 @@ inline std::vector<Pair> inverse_pairs(const geodtab::Ell& E, bool T) {
   if (T) for (Pt b : {Pt{1 / 16.0, -180}, Pt{-1e-10, 179.9999999}, Pt{60, 359}, Pt{89.99, -120}, Pt{-90, 45}, Pt{45, 1e-9}}) sb.push_back(b);
   std::vector<double> seps = {0.0, 1e-9, 3e-8, 1e-7, 1e-6, 1e-3, 1.0, 1e3};
   if (T) for (double x : {3e-9, 1e-5, 0.03, 30.0, 2e4, 3e5}) seps.push_back(x);
-  const int nb = T ? 16 : 8;
+  const int nb = level >= 2 ? 32 : (T ? 16 : 8);
   for (Pt b : sb)
     for (int k = 0; k < nb; ++k) for (double s : seps) {
       // bearings: quick k*45 deg; thorough adds the odd multiples of 22.5 deg after them
-      double th = (k < 8 ? k * M_PI / 4 : (2 * (k - 8) + 1) * M_PI / 8), c = std::cos(b.lat * M_PI / 180);
+      double th = (k < 8 ? k * M_PI / 4 : (k < 16 ? (2 * (k - 8) + 1) * M_PI / 8 : (2 * (k - 16) + 1) * M_PI / 16)), c = std::cos(b.lat * M_PI / 180);
       double dlat = s * std::cos(th) / R * 180 / M_PI, dlon = s * std::sin(th) / (R * (c > 1e-12 ? c : 1e-12)) * 180 / M_PI;
       double la2 = b.lat + dlat; if (la2 > 90) la2 = 90; if (la2 < -90) la2 = -90;
       v.push_back({b.lat, b.lon, la2, b.lon + dlon, 's'});
@@ -126,7 +132,31 @@ inline std::vector<Pair> inverse_pairs(const geodtab::Ell& E, bool T) {
     for (double la : {1e-10, -1e-10, 1e-3}) for (double d : {0.0, 1e-9, -1e-9, 1e-3}) { v.push_back({la, 0, la, (1 - E.f) * 180 + d, 'e'}); v.push_back({la, 0, -la, (1 - E.f) * 180 + d, 'e'}); }
     for (double lo : {1e-9, 28.6, 28.7, 90.0, 135.0, 179.0, 179.999999}) v.push_back({0, 0, 0, lo, 'e'});
   }
+  // (f) both ends next to a pole (opposite poles and the same pole): the region where the two formulas for alp12 in GenInverse
+  //     (half-angle formula / difference of the azimuths) hand over; well separated in longitude so the geodesic is far from meridional
+  {
+    std::vector<double> ds = T ? std::vector<double>{0.01, 0.3, 0.001, 5.0} : std::vector<double>{0.01, 0.3};
+    std::vector<double> ls = T ? std::vector<double>{45, 134, 1, 90} : std::vector<double>{45, 134};
+    for (double d1 : ds) for (double d2 : ds) for (double lo : ls) {
+      if (!T && d1 != d2) continue;
+      v.push_back({-90 + d1, 0, 90 - d2, lo, 'p'});
+      if (T || d1 == 0.3) v.push_back({90 - d1, 0, 90 - d2, lo, 'p'});
+      if (T) v.push_back({-90 + d1, 10, -90 + d2, 10 - lo, 'p'});
+    }
+  }
   return v;
+}
+
+// input class used in failure records (known findings are keyed by it):
+//  equatorial-conjugate-shortline: both points within 0.001 deg of the equator, lon12 < 0.5 rad (so InverseStart's short-line test
+//     cbet2 lam12 < 0.5 passes) and lon12/(1-f) within 1e-6 of 180 deg (so the spherical longitude omg12 is pi): only possible for b/a < 0.16
+//  near-antipodal: a12 or |lon12| >= 179.9 deg
+inline const char* pair_regime(const geodtab::Ell& E, const Pair& P, double a12) {
+  long double l12 = fabsl(remainderl((long double)P.lon2 - (long double)P.lon1, 360.0L));
+  if (E.f > 0 && std::fabs(P.lat1) <= 1e-3 && std::fabs(P.lat2) <= 1e-3 && l12 < 28.6L && fabsl(l12 / (1 - (long double)E.f) - 180) <= 180e-6L)
+    return "equatorial-conjugate-shortline";
+  if (a12 >= 179.9 || l12 >= 179.9L) return "near-antipodal";
+  return "general";
 }
 
 // point set for the metric check over all ordered pairs and all triples
